@@ -8,6 +8,7 @@ budget allows) is executed on the real intertest_setup.update under the traversa
 (by the states they produce), unset requests per worker and rejections are compared with the spec.
 """
 import os
+import sys
 import random
 import time
 
@@ -69,38 +70,45 @@ def _run_request(args):
 
 
 def fork_map(fn, items, par=None):
+    """fn(item) in one forked child per item (results of any size: passed through files, not pipes)"""
     import json as js
+    import tempfile
     par = par or C.NCPU
     res = [None] * len(items)
+    os.makedirs(C.BUILD, exist_ok=True)
+    tmp = tempfile.mkdtemp(prefix="forkmap_", dir=C.BUILD)
     pending, running = list(enumerate(items)), {}
-    while pending or running:
-        while pending and len(running) < par:
-            i, it = pending.pop(0)
-            r, w = os.pipe()
-            pid = os.fork()
-            if pid == 0:
-                os.close(r)
+    try:
+        while pending or running:
+            while pending and len(running) < par:
+                i, it = pending.pop(0)
+                out = os.path.join(tmp, "r%d.json" % i)
+                sys.stdout.flush()
+                pid = os.fork()
+                if pid == 0:
+                    try:
+                        try:
+                            val = fn(it)
+                            data = js.dumps(val)
+                        except BaseException:
+                            import traceback
+                            data = js.dumps({"harness_error": traceback.format_exc()[-1500:]})
+                        with open(out, "w") as f:
+                            f.write(data)
+                    finally:
+                        os._exit(0)
+                running[pid] = (i, out)
+            pid, _ = os.wait()
+            if pid in running:
+                i, out = running.pop(pid)
                 try:
-                    val = fn(it)
-                    os.write(w, js.dumps(val).encode())
-                except BaseException as ex:
-                    import traceback
-                    os.write(w, js.dumps({"harness_error": traceback.format_exc()[-800:]}).encode())
-                finally:
-                    os._exit(0)
-            os.close(w)
-            running[pid] = (i, r)
-        pid, _ = os.wait()
-        if pid in running:
-            i, r = running.pop(pid)
-            data = b""
-            while True:
-                chunk = os.read(r, 65536)
-                if not chunk:
-                    break
-                data += chunk
-            os.close(r)
-            res[i] = js.loads(data.decode()) if data else {"harness_error": "no output"}
+                    with open(out) as f:
+                        res[i] = js.load(f)
+                except Exception:
+                    res[i] = {"harness_error": "no output"}
+    finally:
+        import shutil
+        shutil.rmtree(tmp, ignore_errors=True)
     return res
 
 
